@@ -390,3 +390,82 @@ func VH_C15_TcpDuplex() {
 	}
 	vReach("tcp-duplex")
 }
+
+// vFlakyConn: a ProxyConn whose Write accepts a symbolic prefix and reports a
+// timeout for write call number `failCall` (0-based, -1 never); everything
+// accepted is logged as the wire.
+type vFlakyConn struct {
+	vPipeConn
+	failCall int
+	calls    int
+}
+
+func (c *vFlakyConn) Write(p []byte) (int, error) {
+	k := len(p)
+	fail := c.calls == c.failCall
+	c.calls++
+	if fail {
+		k = vInt("accept")
+		vAssume(k >= 0 && k < len(p))
+	}
+	c.out = append(c.out, p[:k]...)
+	if fail {
+		return k, vErrTimeout
+	}
+	return k, nil
+}
+
+// VH_C15_GrpcWriteRetry: writes across a transport timeout. Write(A) succeeds;
+// during Write(B) one transport write (header or body, symbolic choice)
+// accepts only a symbolic part and times out, so Write(B) returns (nB, err);
+// the application - as any net.Conn user may - writes again (C). Whatever the
+// three calls reported, the reader never obtains anything but a prefix of
+// A[:nA] ++ B[:nB] ++ C[:nC]: bytes that were reported as not written must not
+// show up later, and nothing is delivered twice.
+func VH_C15_GrpcWriteRetry() {
+	ini, rsp := vMachines()
+	maxl := vParam("maxlen", 65535)
+	var bufs [3][]byte
+	var lens [3]int
+	for i := range bufs {
+		lens[i] = vInt("len")
+		vAssume(lens[i] >= 1 && lens[i] <= maxl)
+		bufs[i] = vStream("w", lens[i])
+	}
+	wire := &vFlakyConn{failCall: -1}
+	wire.out = make([]byte, 0, 3*(maxl+40))
+	c := &NoiseGrpcConn{ProxyConn: wire, noise: ini}
+	nA, errA := c.Write(bufs[0])
+	vAssert(errA == nil && nA == lens[0], "first write failed on a healthy transport")
+	wire.failCall = wire.calls + vIntRange("fail_call", 0, 1)
+	nB, errB := c.Write(bufs[1])
+	vAssert(nB >= 0 && nB <= lens[1], "Write reported a count outside [0,len]")
+	vAssert(errB != nil || nB == lens[1], "short write without an error")
+	wire.failCall = -1
+	nC, errC := c.Write(bufs[2])
+	vAssert(nC >= 0 && nC <= lens[2], "Write reported a count outside [0,len]")
+	vAssert(errC != nil || nC == lens[2], "short write without an error")
+	vReach("grpc-write-retry")
+	if nB < 0 || nB > lens[1] || nC < 0 || nC > lens[2] {
+		return
+	}
+	reported := make([]byte, 0, 3*maxl)
+	reported = append(reported, bufs[0][:nA]...)
+	reported = append(reported, bufs[1][:nB]...)
+	reported = append(reported, bufs[2][:nC]...)
+	// the reader takes every complete record it can get
+	rd := &vPipeConn{buf: wire.out}
+	got := make([]byte, 0, 3*maxl)
+	for i := 0; i < 3; i++ {
+		m, err := rsp.ReadMessage(rd)
+		if err != nil {
+			break
+		}
+		got = append(got, m...)
+	}
+	vAssert(len(got) <= len(reported), "the reader obtained more bytes than the writer was told it had written (bytes of a write reported as failed were delivered later, or delivered twice)")
+	j := vInt("j")
+	if j >= 0 && j < len(got) && j < len(reported) {
+		vAssert(got[j] == reported[j], "the reader's stream differs from the concatenation of the reported writes")
+	}
+}
